@@ -787,6 +787,13 @@ class KernelCpu:
         if arg.pointer:
             if hasattr(arg.atype, "_dtype"):  # it is numerical scalar
                 if hasattr(value, "dtype"):  # nparray
+                    if not value.dtype.isnative:
+                        # same type name, other byte order: the compiled
+                        # function would read garbage
+                        raise TypeError(
+                            f"Array of non-native byte order ({value.dtype.str})"
+                            f" for argument `{arg.name}`."
+                        )
                     slice_first_elem = value[tuple(value.ndim * [slice(0, 1)])]
                     return self.ffi_interface.cast(
                         dtype2ctype(value.dtype) + "*",
